@@ -253,3 +253,69 @@ def strrule(ctx):
         obs.append(Ob('SA-STR', 'utils.%s|level 4|identity' % nm, ok, ctx.loc(funcs[nm], funcs[nm].node),
                       '' if ok else 'at level 4 the name must be returned unchanged'))
     return obs
+
+
+@rule('SA-STR.ext')
+@props('C18')
+def str_ext(ctx):
+    """The mangler keeps every extension the acceptance predicate admits.
+
+    mangle_file_for_iso9660 decides by the length of the extension whether it stays an extension or is folded into the
+    base name (and its separator turned into `_`).  That decision has to agree with `_check_iso9660_filename`: an
+    extension the predicate accepts at a level - up to 3 characters at level 1; at levels 2 and 3 the predicate sets no
+    limit of its own and ECMA-119 7.5.1 allows 30 for name and extension together - must be kept, otherwise a name that is
+    already legal (`INDEX.HTML` at level 2) comes back altered, which C18 rules out.  The guard is evaluated, for each
+    level and each extension length 1..limit, by constant folding (the test only involves the level, the length and
+    constants assigned under tests on the level)."""
+    fm = ctx.func('utils.mangle_file_for_iso9660')
+    limits = _limits(ctx)
+    obs = []
+    # the statement that folds the extension away: an If whose one branch assigns valid_ext = '' and mentions a length name
+    lenvars = {}
+    for n in ctx.own_nodes(fm):
+        if isinstance(n, ast.Assign) and len(n.targets) == 1 and isinstance(n.targets[0], ast.Name) and isinstance(n.value, ast.Call) and \
+                norm(n.value.func) == 'len' and n.value.args and isinstance(n.value.args[0], ast.Name) and 'ext' in n.value.args[0].id:
+            lenvars[n.targets[0].id] = n
+    folds = []
+    for n in ctx.own_nodes(fm):
+        if isinstance(n, ast.If) and any(isinstance(x, ast.Name) and x.id in lenvars for x in ast.walk(n.test)):
+            def clears(body):
+                return any(isinstance(x, ast.Assign) and any(isinstance(t, ast.Name) and 'ext' in t.id for t in x.targets) and
+                           isinstance(x.value, ast.Constant) and x.value.value == '' for st in body for x in [st])
+            if clears(n.body) or clears(n.orelse):
+                folds.append((n, clears(n.body)))
+    if len(folds) != 1 or not lenvars:
+        raise AnalysisError('anchor-vanished: the extension-length decision of mangle_file_for_iso9660 (%d candidates)' % len(folds))
+    ifnode, folds_when_true = folds[0]
+    lv = fm.params[1] if len(fm.params) > 1 else 'iso_level'
+    # constants assigned before the decision under tests on the level (e.g. `maxext = 3 if iso_level == 1 else 30`)
+    for level in (1, 2, 3):
+        env = {lv: level}
+        for st in fm.node.body:
+            if st.lineno >= ifnode.lineno:
+                break
+            for x in ast.walk(st):
+                if isinstance(x, ast.Assign) and len(x.targets) == 1 and isinstance(x.targets[0], ast.Name) and x.lineno < ifnode.lineno:
+                    v = _peval(x.value, env)
+                    if v is not _UNKNOWN and isinstance(v, (int, float)) and x.targets[0].id not in lenvars:
+                        env.setdefault(x.targets[0].id, v)
+        want = limits.get(('file-extension', level)) or 30
+        lost = []
+        undecided = False
+        for n in range(1, int(want) + 1):
+            e2 = dict(env)
+            for lvn in lenvars:
+                e2[lvn] = n
+            t = _peval(ifnode.test, e2)
+            if t is _UNKNOWN:
+                undecided = True
+                break
+            if bool(t) == folds_when_true:
+                lost.append(n)
+        if undecided:
+            raise AnalysisError('undecided: the extension-length test `%s` of mangle_file_for_iso9660 does not fold for level %d' % (norm(ifnode.test), level))
+        obs.append(Ob('SA-STR.ext', 'utils.mangle_file_for_iso9660|level %d|keeps every admissible extension' % level, not lost, ctx.loc(fm, ifnode),
+                      '' if not lost else 'at level %d an extension of %s characters is folded into the base name (`%s`), although the acceptance predicate admits extensions up to '
+                      '%d characters there: a name that is already legal, such as INDEX.HTML, comes back as INDEX_HTML' % (
+                          level, '%d..%d' % (lost[0], lost[-1]) if len(lost) > 1 else str(lost[0]), norm(ifnode.test), want)))
+    return obs
